@@ -51,6 +51,11 @@ def interpret_linear(body):
             return vals[p["l"]]
         if len(p["p"]) == 1 and isinstance(p["p"][0], dict) and "f" in p["p"][0] and p["l"] in vals and vals[p["l"]][0] == "pair":
             return vals[p["l"]][1 + p["p"][0]["f"]]
+        if len(p["p"]) == 1 and isinstance(p["p"][0], dict) and p["l"] in vals and vals[p["l"]][0] == "ints":
+            e = p["p"][0]
+            idx = e.get("f", e.get("ci"))
+            if isinstance(idx, int) and 0 <= idx < len(vals[p["l"]][1]):
+                return ("int", vals[p["l"]][1][idx])
         raise gf2.NotLinear("read of a place outside the state word", where)
 
     def operand(o, where):
@@ -59,6 +64,8 @@ def interpret_linear(body):
         k = o["k"]
         if "v" in k and k["ty"] in ("i32", "u32", "usize", "u64", "i64", "u8"):
             return ("int", int(k["v"]))
+        if isinstance(k.get("val"), list) and all(isinstance(x, int) and not isinstance(x, bool) for x in k["val"]):
+            return ("ints", [int(x) for x in k["val"]])          # a tuple / array of integer constants (named shift counts)
         raise gf2.NotLinear("constant operand of type %s" % k["ty"], where)
 
     bb = 0
@@ -338,104 +345,136 @@ def structural(rep, prog):
     if not ok6:
         rep.violate("C19.s6", "s6|int-range", ui.where(), "integer sample is not start + rem_euclid(generator bits, end - start)", config=cfg)
 
-    # ---- s3 composite draws
+    # ---- s3 / s4 by interpretation: the inner `Distrib::sample` calls are uninterpreted (each returns a fresh symbol and records its
+    # receiver and generator); what must hold is which draws are made, in which order, from which generator, and what is returned -
+    # however the composite is written (array::from_fn, a loop over iter_mut().zip(..), iterator sources, loop/match/break forms)
+    RNGN = "core::ops::range::Range"
+    UNI = "retrofire_core::math::rand::Uniform"
+
+    def draws_of(body, self_val, env, n_draw_syms=1, accept=None):
+        """interpret body(&self, rng); -> (result, [(receiver value, same generator?)], interpreter)"""
+        log = []
+        gcell = A.Frame(None)
+        gcell.locals[0] = ("sym", "RNG")
+        gref = ("ref", gcell, 0, [])
+
+        def root(it_, r):
+            while isinstance(r, tuple) and r[0] == "ref" and isinstance(it_.load_ref(r), tuple) and it_.load_ref(r)[0] == "ref":
+                r = it_.load_ref(r)
+            return r[1] if isinstance(r, tuple) and r[0] == "ref" else None
+
+        def m_sample(it_, args, c, d):
+            k = len(log)
+            recv = A.deref_all(it_, args[0])
+            log.append((A.copy_val(recv), root(it_, args[1]) is gcell))
+            if n_draw_syms == 1:
+                return S.sym("u%d" % k)
+            return ("array", [S.sym("v%d_%d" % (k, j)) for j in range(n_draw_syms)])
+
+        def orc(op, x, y):
+            if accept is None:
+                return None
+            return accept(op, x, y)
+        it_ = S.interp(prog, models={"rand::Distrib::sample": m_sample}, oracle=orc)
+        r = A.deref_all(it_, it_.call_body(body, [S.ref_to(self_val), gref], env=env))
+        return r, log, it_
+
+    def rng_of(start, end):
+        return ("adt", UNI, "Uniform", [("adt", RNGN, "Range", [start, end])])
+
+    # (D, E): component 0 then component 1 from the same generator into (first, second)
     pair = prog.body("retrofire_core::<(D, E) as math::rand::Distrib>::sample")
-    psl = T.Slicer(pair)
-    draws = [(bi, t) for bi, t in pair.calls(lambda c: facts.callee_matches(c, "rand::Distrib::sample"))]
-    rep.floor("C19.s3.pair", len(draws), 2, "component draws in (D, E)::sample")
-    comp = []
-    for bi, t in draws:
-        recv = T.strip(psl.operand(t["args"][0]), refs=True)
-        rng = T.strip(psl.operand(t["args"][1]), refs=True)
-        comp.append((bi, recv, rng))
-    by_field = {}
-    for bi, recv, rng in comp:
-        if recv[0] == "field" and recv[1] == ("param", 1):
-            by_field[recv[2]] = (bi, rng)
-    ok = "0" in by_field and "1" in by_field and by_field["0"][1] == ("param", 2) and by_field["1"][1] == ("param", 2) \
-        and pair.dominates(by_field["0"][0], by_field["1"][0]) and by_field["0"][0] != by_field["1"][0]
-    ret = psl.local(0)
-    tuple_ok = ret[0] == "agg" and ret[1] == "tuple" and len(ret[2]) == 2 and \
-        all(ret[2][i][0] == "call" and ret[2][i][3] == (pair.path, by_field.get(str(i), (None,))[0]) for i in range(2))
-    rep.inst("C19.s3", "(D,E)::sample draws self.0 then self.1 from the same rng and returns (first, second): %s / %s" % (ok, tuple_ok), config=cfg)
-    if not (ok and tuple_ok):
+    try:
+        r, log, it_ = draws_of(pair, ("tuple", [("sym", "D"), ("sym", "E")]), {})
+        ok = [x[0] for x in log] == [("sym", "D"), ("sym", "E")] and all(x[1] for x in log) and isinstance(r, tuple) and r[0] == "tuple" \
+            and [A.deref_all(it_, x) for x in r[1]] == [S.sym("u0"), S.sym("u1")]
+    except (A.Undecided, A.Panic) as e:
+        raise common.Infra("C19.s3: (D, E)::sample could not be interpreted (%s)" % e)
+    rep.inst("C19.s3", "(D,E)::sample draws self.0 then self.1 from the same rng and returns (first, second): %s" % ok, config=cfg)
+    if not ok:
         rep.violate("C19.s3", "s3|pair-order", pair.where(), "(D, E)::sample does not draw component 0 before component 1 from the same generator into (0, 1)", config=cfg)
+    # Uniform<[T; N]>: component i from Uniform(start[i]..end[i]), ascending i, same generator
     arr = prog.body("retrofire_core::<math::rand::Uniform<[T; N]> as math::rand::Distrib>::sample")
-    clos = prog.children(arr.path)
-    asl = T.Slicer(arr)
-    ff = list(arr.calls(lambda c: facts.callee_matches(c, "core::array::from_fn")))
-    ok_arr = len(ff) == 1 and len(clos) == 1
-    if ok_arr:
-        c = clos[0]
-        csl = T.Slicer(c)
-        ds = list(c.calls(lambda cc: facts.callee_matches(cc, "rand::Distrib::sample")))
-        ok_arr = len(ds) == 1
-        if ok_arr:
-            recv = csl.operand(ds[0][1]["args"][0])
-            # Uniform(start[i]..end[i]) with i the closure parameter
-            idx = [s for s in T.walk(recv) if s[0] == "index"]
-            ok_arr = len(idx) == 2 and all(T.strip(s[2]) == ("param", 2) for s in idx) and \
-                {T.strip(s[1], refs=True) for s in idx} == {("upvar", "start"), ("upvar", "end")}
-            # start in Range.start position
-            if ok_arr:
-                rng_agg = [s for s in T.walk(recv) if s[0] == "agg" and s[1].endswith("Range::Range")]
-                ok_arr = bool(rng_agg) and T.strip(rng_agg[0][2][0][1], refs=True) == ("upvar", "start") and T.strip(rng_agg[0][2][1][1], refs=True) == ("upvar", "end")
-            from .render_common import capture_terms
-            caps = capture_terms(prog, c)
-            rng_cap = [i for i, (n, _r) in csl.upvars().items() if n == "rng"]
-            ok_arr = ok_arr and rng_cap and T.strip(caps.get(rng_cap[0], ()), refs=True) == ("param", 2)
-    rep.inst("C19.s3", "Uniform<[T;N]>::sample = array::from_fn(|i| Uniform(start[i]..end[i]).sample(rng)) (ascending i, same rng): %s" % bool(ok_arr), config=cfg)
+    st3, en3 = [S.sym("s%d" % i) for i in range(3)], [S.sym("e%d" % i) for i in range(3)]
+    try:
+        r, log, it_ = draws_of(arr, rng_of(("array", list(st3)), ("array", list(en3))), {"N": 3, "T": "f32"})
+        recvs = []
+        for rv, same in log:
+            rg = A.deref_all(it_, rv[3][0]) if isinstance(rv, tuple) and rv[0] == "adt" and rv[3] else None
+            recvs.append((A.deref_all(it_, rg[3][0]), A.deref_all(it_, rg[3][1]), same) if isinstance(rg, tuple) and rg[0] == "adt" and len(rg[3]) >= 2 else None)
+        ok_arr = recvs == [(st3[i], en3[i], True) for i in range(3)] and isinstance(r, tuple) and r[0] == "array" \
+            and [A.deref_all(it_, x) for x in r[1]] == [S.sym("u%d" % i) for i in range(3)]
+    except (A.Undecided, A.Panic) as e:
+        raise common.Infra("C19.s3: Uniform<[T; N]>::sample could not be interpreted (%s)" % e)
+    rep.inst("C19.s3", "Uniform<[T;N]>::sample: component i is drawn from Uniform(start[i]..end[i]), ascending i, same rng, into slot i: %s" % bool(ok_arr), config=cfg)
     if not ok_arr:
-        rep.violate("C19.s3", "s3|array-order", arr.where(), "array distribution does not draw component i from Uniform(start[i]..end[i]) in array::from_fn order", config=cfg)
-    for name in ("math::vec::Vector<[Sc; DIM], Sp>", "math::point::Point<[Sc; DIM], Sp>"):
+        rep.violate("C19.s3", "s3|array-order", arr.where(), "array distribution does not draw component i from Uniform(start[i]..end[i]) in ascending order from the same generator", config=cfg)
+    VEC, PT = "retrofire_core::math::vec::Vector", "retrofire_core::math::point::Point"
+    for name, wrap in (("math::vec::Vector<[Sc; DIM], Sp>", VEC), ("math::point::Point<[Sc; DIM], Sp>", PT)):
         b = prog.body("retrofire_core::<math::rand::Uniform<%s> as math::rand::Distrib>::sample" % name)
-        ds = list(b.calls(lambda cc: facts.callee_matches(cc, "rand::Distrib::sample")))
-        bsl = T.Slicer(b)
-        ok = len(ds) == 1 and T.strip(bsl.operand(ds[0][1]["args"][1]), refs=True) == ("param", 2)
-        if ok:
-            recv = bsl.operand(ds[0][1]["args"][0])
-            rr = [s for s in T.walk(recv) if s[0] == "agg" and s[1].endswith("Range::Range")]
-            ok = bool(rr) and "Range.start" in T.fields_in(rr[0][2][0]) and "Range.end" in T.fields_in(rr[0][2][1])
-        rep.inst("C19.s3", "Uniform<%s>::sample = one draw of Uniform(start.0..end.0) from the same rng: %s" % (name.split("<")[0].split("::")[-1], ok), config=cfg)
+        mk = lambda arrv, wrap=wrap: ("adt", wrap, wrap.rsplit("::", 1)[-1], [arrv, ("tuple", [])])  # noqa: E731
+        try:
+            r, log, it_ = draws_of(b, rng_of(mk(("array", list(st3))), mk(("array", list(en3)))), {"DIM": 3, "Sc": "f32"}, n_draw_syms=3)
+            ok = len(log) == 1 and log[0][1]
+            if ok:
+                rg = A.deref_all(it_, log[0][0][3][0])
+                lo, hi = A.deref_all(it_, rg[3][0]), A.deref_all(it_, rg[3][1])
+                ok = isinstance(lo, tuple) and lo[0] == "array" and [A.deref_all(it_, x) for x in lo[1]] == st3 and [A.deref_all(it_, x) for x in hi[1]] == en3
+                got = A.deref_all(it_, r[3][0]) if isinstance(r, tuple) and r[0] == "adt" and r[1] == wrap else None
+                ok = ok and isinstance(got, tuple) and got[0] == "array" and [A.deref_all(it_, x) for x in got[1]] == [S.sym("v0_%d" % j) for j in range(3)]
+        except (A.Undecided, A.Panic, IndexError, TypeError) as e:
+            raise common.Infra("C19.s3: Uniform<%s>::sample could not be interpreted (%s)" % (name.split("<")[0].split("::")[-1], e))
+        rep.inst("C19.s3", "Uniform<%s>::sample = one draw of Uniform(start.0..end.0) from the same rng, wrapped: %s" % (name.split("<")[0].split("::")[-1], ok), config=cfg)
         if not ok:
             rep.violate("C19.s3", "s3|%s" % name.split("<")[0].split("::")[-1], b.where(), "vector/point distribution is not a single array draw of (start.0..end.0)", config=cfg)
 
-    # ---- s4 rejection samplers
-    for nm in ("VectorsOnUnitDisk", "VectorsInUnitBall"):
-        b = prog.inlined(prog.body("retrofire_core::<math::rand::%s as math::rand::Distrib>::sample" % nm), depth=3,
-                         pred=lambda cb: cb.path.startswith("retrofire_core::math::rand::") and cb.impl_trait is None and not cb.path.endswith("::next_bits"))
-        bsl = T.Slicer(b)
+    # ---- s4 rejection samplers: with the first K candidate draws rejected and the next one accepted (K = 0, 1, 2) exactly K + 1 draws are
+    # made and the accepted one is what is returned; the acceptance test is len_sqr(candidate) <= 1 (or < 1), nothing else
+    for nm, dim in (("VectorsOnUnitDisk", 2), ("VectorsInUnitBall", 3)):
+        b = prog.body("retrofire_core::<math::rand::%s as math::rand::Distrib>::sample" % nm)
+        bad_guard, bad_value = [], []
+        for K in range(3):
+            tests = []
 
-        def is_accept(d):
-            # len_sqr(&v) <= 1.0   or 1.0 >= len_sqr(&v)  (also strict <)
-            if d[0] != "bin":
-                return False
-            a, c = d[2], d[3]
-            if d[1] in ("Le", "Lt") and T.calls_in(a, "len_sqr") and c == ("const", "f32", 1.0):
-                return True
-            if d[1] in ("Ge", "Gt") and T.calls_in(c, "len_sqr") and a == ("const", "f32", 1.0):
-                return True
-            return False
-        edges = G.bool_edges(b, bsl, is_accept)
-        acc = [e for _bi, tr, _fa in edges for e in tr]
-        rets = G.return_blocks(b)
-        ok = bool(acc) and all(G.guarded_by(b, r, acc) for r in rets)
-        same = False
-        if edges:
-            d, _neg = G.strip_not(bsl.operand(b.term(edges[0][0])["discr"]))
-            ls = (T.calls_in(d, "len_sqr") or [None])[0]
-            # call sites are kept: two draws from the same distribution are two different values
-            tested = T.strip(ls[2][0], sites=False, refs=True) if ls else None
-            # returned value: any assignment to _0 (also as the destination of a call)
-            rvals = [T.strip(bsl.operand(s["rv"]["a"]), sites=False, refs=True) for _bi, _si, s in b.stmts()
-                     if s["k"] == "Assign" and s["lhs"]["l"] == 0 and not s["lhs"]["p"] and s["rv"]["k"] == "Use"]
-            direct = [bi_ for bi_, t_ in b.calls(lambda c: True) if t_["dest"]["l"] == 0 and not t_["dest"]["p"] and bi_ in set(b.reachable(0))]
-            same = bool(rvals) and all(rv == tested for rv in rvals) and not direct
-        rep.inst("C19.s4", "%s::sample returns only on the `len_sqr(v) <= 1` edge, and returns that v: %s / %s" % (nm, ok, same), config=cfg)
-        if not ok:
-            rep.violate("C19.s4", "s4|%s|guard" % nm, b.where(), "%s can return a vector that was not accepted by len_sqr(v) <= 1" % nm, config=cfg)
-        if not same:
-            rep.violate("C19.s4", "s4|%s|value" % nm, b.where(), "%s tests one vector and returns another" % nm, config=cfg)
+            def accept(op, x, y, K=K, tests=tests):
+                for pv, cv, flip in ((x, y, False), (y, x, True)):
+                    try:
+                        pp = S.to_poly(pv)
+                    except S.NotPolynomial:
+                        continue
+                    ks = {int(m_[1:].split("_")[0]) for mono in pp for m_ in mono if m_.startswith("v") and "_" in m_}
+                    if len(ks) != 1:
+                        continue
+                    k = next(iter(ks))
+                    want = {("v%d_%d" % (k, j), "v%d_%d" % (k, j)): Fraction(1) for j in range(dim)}
+                    o = {"Lt": "Gt", "Gt": "Lt", "Le": "Ge", "Ge": "Le"}.get(op, op) if flip else op
+                    tests.append((k, pp == want, cv, o))
+                    acc = k >= K
+                    return {"Le": acc, "Lt": acc, "Gt": not acc, "Ge": not acc}.get(o)
+                return None
+            try:
+                r, log, it_ = draws_of(b, ("adt", "retrofire_core::math::rand::" + nm, nm, []), {}, n_draw_syms=dim, accept=accept)
+            except (A.Undecided, A.Panic) as e:
+                wrong = [t_ for t_ in tests if not (t_[1] and t_[2] in (("f", 1.0), 1) and t_[3] in ("Le", "Lt"))]
+                if not wrong:
+                    raise common.Infra("C19.s4: %s::sample could not be interpreted with %d rejected candidates (%s)" % (nm, K, e))
+                # the loop never ends in this scenario because the acceptance test is not the specified one
+                k, is_lensqr, cv, o = wrong[0]
+                bad_guard.append("candidate %d is tested by %s(<its squared length%s>, %s): a candidate inside the unit ball is not accepted" % (k, o, "" if is_lensqr else " ?: another quantity", cv))
+                continue
+            comps = [A.deref_all(it_, x) for x in S.components(it_, r)] if isinstance(r, tuple) and r[0] == "adt" else None
+            if comps != [S.sym("v%d_%d" % (K, j)) for j in range(dim)] or len(log) != K + 1:
+                bad_value.append("with %d rejected candidate(s): %d draw(s) made, returns %s" % (K, len(log), [str(c)[:30] for c in comps] if comps else str(r)[:60]))
+            for k, is_lensqr, cv, o in tests:
+                if not (is_lensqr and cv in (("f", 1.0), 1) and o in ("Le", "Lt")):
+                    bad_guard.append("candidate %d is accepted by %s(<its squared length%s>, %s)" % (k, o, "" if is_lensqr else " ?: another quantity", cv))
+            if not tests:
+                bad_guard.append("no acceptance test on the candidate's squared length")
+        rep.inst("C19.s4", "%s::sample with 0 / 1 / 2 rejected candidates: draws until len_sqr(v) <= 1 and returns that very v: %s / %s" % (nm, not bad_guard, not bad_value), config=cfg)
+        if bad_guard:
+            rep.violate("C19.s4", "s4|%s|guard" % nm, b.where(), "%s can return a vector that was not accepted by len_sqr(v) <= 1 (%s)" % (nm, bad_guard[0]), config=cfg)
+        if bad_value:
+            rep.violate("C19.s4", "s4|%s|value" % nm, b.where(), "%s tests one vector and returns another (%s)" % (nm, bad_value[0]), config=cfg)
 
     # ---- s5 Bernoulli
     b = prog.body("retrofire_core::<math::rand::Bernoulli as math::rand::Distrib>::sample")
